@@ -1214,6 +1214,8 @@ class BasicVarptrExpression(AbstractBasicExpression):
     def visit(self, visitor: "BasicConstructVisitor") -> None:
         visitor.visit_exp(self)
         visitor.visit_exp(self._var)
+        if isinstance(self._var, BasicVar):
+            self._var.visit(visitor)
         if isinstance(self._var, BasicArrayRef):
             for index in self._var.indices.exp_list:
                 index.visit(visitor)
